@@ -116,6 +116,16 @@ class PathGen:
             if self.r.random() < wrong_p:
                 node = self.r.choice([None, 3, "abc", [], {}])
             p = self.part_for(node)
+            dicts = [x for x in frontier if isinstance(x, dict) and x]
+            lists = [x for x in frontier if isinstance(x, list) and x]
+            if dicts and lists and self.r.random() < 0.5:
+                # the nodes reached are of both kinds: ONE map-or-list part with its own key and index conditions (and,
+                # mostly, a value condition) meets mappings and lists alike
+                dn, ln = self.r.choice(dicts), self.r.choice(lists)
+                vn = self.r.choice([dn, ln])
+                p = MolT(key=lit(self.r.choice(list(dn.keys()))) if self.r.random() < 0.5 else cnd(self.key_cond(dn)),
+                         index=lit(self.r.randrange(len(ln))) if self.r.random() < 0.5 else cnd(self.index_cond(ln)),
+                         value=cnd(self.value_cond(vn)) if self.r.random() < 0.65 else None, label=self.label())
             parts.append(p)
             new = []
             for nd in frontier[:6]:
@@ -141,3 +151,56 @@ class PathGen:
             if self.r.random() < 0.04:
                 mods.append(self.r.choice(DT_MODS + MT_MODS))
         return PathT(parts, mods)
+
+    def shared_doc_and_path(self, max_len=3, mods_p=0.35):
+        """A document holding the SAME container object at several sibling positions, and a path that reaches all of them
+        through a non-concrete part and descends into it (YAML anchors / `[row] * 3`)."""
+        r, g = self.r, self.g
+        c = g.container(3, 4)
+        k = r.randint(2, 3)
+        others = [g.value(2, 3) for _ in range(r.randint(0, 2))]
+        if r.random() < 0.5:
+            top = [c] * k + others
+            r.shuffle(top)
+        else:
+            keys = r.sample(["a", "b", "c", "key", "path", "x", "t", "A"], k + len(others))
+            vals = [c] * k + others
+            r.shuffle(vals)
+            top = dict(zip(keys, vals))
+        first = self.part_for(top, explicit_p=1.0)
+        doc, prefix = top, []
+        w = r.random()
+        if w < 0.25:
+            doc, prefix = {"rows": top, "n": 1}, [Prim("rows")]
+        elif w < 0.4:
+            doc = [top, g.value(1, 2)]
+            prefix = [self.part_for(doc, explicit_p=1.0)]
+        pt = self.path(c, max_len=max_len, mods_p=mods_p, wrong_p=0.0)
+        if not pt.parts:
+            pt.parts = [self.part_for(c)]
+        pt.parts = prefix + [first] + pt.parts
+        return doc, pt
+
+    def mixed_doc_and_path(self, doc=None):
+        """A document with sibling mappings AND lists, and a path whose map-or-list part (own key, index and value conditions)
+        meets both kinds through a non-concrete part before it."""
+        r, g = self.r, self.g
+        kids = [g.container(2, 4, "dict"), g.container(2, 4, "list")] + [g.container(2, 3) for _ in range(r.randint(0, 2))]
+        kids += [g.scalar() for _ in range(r.randint(0, 1))]
+        r.shuffle(kids)
+        if r.random() < 0.5:
+            top = kids
+        else:
+            top = dict(zip(r.sample(["a", "b", "c", "key", "x", "t", "A", 1, 2.5], len(kids)), kids))
+        first = self.part_for(top, explicit_p=1.0) if r.random() < 0.5 else (ListT() if isinstance(top, list) else MapT())
+        dn = r.choice([x for x in kids if isinstance(x, dict) and x])
+        ln = r.choice([x for x in kids if isinstance(x, list) and x])
+        vn = r.choice([dn, ln])
+        mol = MolT(key=lit(r.choice(list(dn.keys()))) if r.random() < 0.5 else cnd(self.key_cond(dn)),
+                   index=lit(r.randrange(len(ln))) if r.random() < 0.5 else cnd(self.index_cond(ln)),
+                   value=cnd(self.value_cond(vn)) if r.random() < 0.8 else None, label=self.label())
+        parts = [first, mol]
+        if r.random() < 0.3:
+            sel = self.select(mol, dn) + self.select(mol, ln)
+            parts.append(self.part_for(r.choice(sel) if sel else None))
+        return top, PathT(parts, [])
